@@ -1,5 +1,6 @@
 import Lean.Data.Json
 import SwhVerif.Model.All
+import SwhVerif.Exec.Sha1
 /-!
   Line-protocol driver: one JSON object per input line, one JSON object per output line.
   Runs the *model's* executable definitions; the Python harness runs the implementation on
@@ -584,6 +585,50 @@ def opSwhidCodec (j : Json) : Except String Json := do
   | "space" => pure <| Json.mkObj [("cps", jNats ((List.range 0x110000).filter (fun n => n.isValidChar && isPySpace (Char.ofNat n))))]
   | _ => throw s!"bad codec {f}"
 
+/-! #### C18 identify decision table -/
+
+namespace CliDrv
+open Swh.Cli
+
+def kindOf : String → Except String ArgKind
+  | "file" => pure .file | "dir" => pure .dir | "linkFile" => pure .linkFile | "linkDir" => pure .linkDir
+  | "stdin" => pure .stdin | "url" => pure .url | "gitRepo" => pure .gitRepo
+  | s => throw s!"bad kind {s}"
+
+def typeOfS : String → Except String TypeOpt
+  | "auto" => pure .auto | "content" => pure .content | "directory" => pure .directory
+  | "origin" => pure .origin | "snapshot" => pure .snapshot
+  | s => throw s!"bad type {s}"
+
+def verifyOf : String → Except String VerifyOpt
+  | "absent" => pure .absent | "matching" => pure .matching | "nonMatching" => pure .nonMatching
+  | s => throw s!"bad verify {s}"
+
+def jDes : Designated → Json
+  | .contentOfFile => Json.str "contentOfFile" | .contentOfLinkText => Json.str "contentOfLinkText"
+  | .contentOfStdin => Json.str "contentOfStdin" | .directory => Json.str "directory"
+  | .origin => Json.str "origin" | .snapshot => Json.str "snapshot"
+
+def jOutcome : Outcome → Json
+  | .print d n w => Json.arr #[Json.str "print", jDes d, Json.bool n, Json.bool w]
+  | .usageError => Json.arr #[Json.str "usageError"]
+  | .exit0 d => Json.arr #[Json.str "exit0", jDes d]
+  | .exit1 d => Json.arr #[Json.str "exit1", jDes d]
+  | .crash => Json.arr #[Json.str "crash"]
+  | .unspecified => Json.arr #[Json.str "unspecified"]
+
+def opIdentify (j : Json) : Except String Json := do
+  let c : Cfg := ⟨← kindOf (← getS j "kind"), ← typeOfS (← getS j "type"), ← getBool j "deref",
+    ← getBool j "filename", ← getBool j "recursive", ← verifyOf (← getS j "verify"), ← getBool j "exclude"⟩
+  pure <| Json.mkObj [("outcome", jOutcome (identify c)), ("expected", jOutcome (expected c)),
+    ("in_scope", Json.bool (inScope c))]
+
+end CliDrv
+
+def opSha1 (j : Json) : Except String Json := do
+  let b ← getB j "data"
+  pure <| Json.mkObj [("sha1", jB (Sha1.sha1 b))]
+
 def dispatch (op : String) (j : Json) : Except String Json :=
   match op with
   | "ping" => pure (Json.mkObj [("pong", Json.bool true)])
@@ -616,6 +661,8 @@ def dispatch (op : String) (j : Json) : Except String Json :=
   | "swhid_parse" => opSwhidParse j
   | "swhid_print" => opSwhidPrint j
   | "swhid_codec" => opSwhidCodec j
+  | "sha1" => opSha1 j
+  | "cli_identify" => CliDrv.opIdentify j
   | _ => throw s!"unknown op {op}"
 
 def handleLine (line : String) : String :=
